@@ -15,7 +15,7 @@ from core import Check, hx, VERIF
 import secpworker
 
 PROP = "C08"
-MODS = ["EmbitModel.Props.C08"]
+MODS = ["EmbitModel.Props.C08", "EmbitModel.Props.C08X"]
 
 N = 0xFFFFFFFFFFFFFFFFFFFFFFFFFFFFFFFEBAAEDCE6AF48A03BBFD25E8CD0364141
 P = 2**256 - 2**32 - 977
